@@ -30,6 +30,7 @@ use crate::util;
 pub use crate::util::NO_LIMIT;
 
 /// Raft log implementation
+#[cfg_attr(feature = "tikv_raft_rs_verif", derive(Clone))]
 pub struct RaftLog<T: Storage> {
     /// Contains all stable entries since the last snapshot.
     pub store: T,
